@@ -83,6 +83,28 @@ check("C19", "fault_enumeration",
       "Trusted: RLIMIT_FSIZE / ptrace / strace injection semantics of this kernel.",
       "DESIGN.md §2.6, §3 C19", engine="engine/common + tools/fsize")
 
+
+check("C01", "exploration",
+      "bounded exhaustive enumeration of byte strings, lexeme sequences, parser-token sequences, prefixes and single-token corruptions through every public entry point, in isolated worker processes (fatal errors and hangs attributed to the running case)",
+      "All strings of <=3/4 fragments over a 37-fragment lexical and a 14-fragment hostile alphabet, all lexeme sequences of length <=3/4, all parser-token sequences of length <=2 over every token type (<=3 over 50 core types) with and without EOF and with short/long position mappings, every token prefix of every generated statement, byte prefixes of corpus files, single-token corruptions: about 60 entry points per text (every dialect, strict mode; serialisers, extractors, scanners, linter and fixers on top). Oracle: the call returns, no panic, the worker neither dies nor goes silent.",
+      "Trusted: worker isolation with RLIMIT_AS 3 GiB and 64 MiB max stack; a hang is 120 s without progress.",
+      "DESIGN.md §2.1, §3 C01", engine="engine/common + lexgen + sqlgen")
+check("C13", "exploration",
+      "bounded exhaustive enumeration of rejected inputs (token corruptions, lexical fragment strings, limit violations) through 10 failing-capable entry points; structural oracle on the returned error",
+      "Every rejected input must expose an *errors.Error through errors.As with a documented code of the family of the stage that rejected it (tokenizer E1xxx / parser E2xxx, dedicated limit codes), a non-empty message, a location inside the input when set, and identical (code, message, location) on a second call.",
+      "Trusted: stage = whether tokenizer.Tokenize alone rejects the input.",
+      "DESIGN.md §3 C13", engine="engine/common + lexgen + sqlgen")
+check("C16", "exploration",
+      "bounded exhaustive enumeration payload x position x wrapper x layout x threshold x API; per-API canonical-answer oracle",
+      "10 documented payloads in every expression hole of the model grammar (conditions also as AND/OR/NOT operands, in parentheses, nested three levels, next to sibling clauses, in set operations and scripts; thorough: inside EXISTS sub-queries) under 3 layouts, 4 severity thresholds and 3 scanner APIs: documented class/severity in the canonical position, superset of the canonical findings everywhere else, layout invariance, threshold = filter, counters = list, tree unchanged, reused scanner = new scanner.",
+      "Trusted: closure is judged per API against that API's own canonical answer.",
+      "DESIGN.md §3 C16")
+check("C18", "model_checking",
+      "explicit-state search over all framed JSON-RPC message histories up to depth 3/4 (+1 behind didOpen) on a fresh real server, reference document model (UTF-16 clamping arithmetic) in lock-step; exhaustive single/paired edit ranges on small documents",
+      "49-message alphabet (lifecycle, sync with in-range / past-end / inverted / negative ranges over ASCII and non-ASCII text, every request kind at valid / far / negative positions, malformed bodies and headers): the server never dies, output frames are exact, one response per request id and none for notifications, the document mirror equals the model after every in-contract history, last diagnostics carry the model's version / count / line.",
+      "Trusted: the reference position model; each history runs far below the rate limiter window.",
+      "DESIGN.md §2.4, §3 C18", engine="engine/common (history enumeration)")
+
 NOT_BUILT = "check not built yet (work in progress; see DESIGN.md for the planned model-checking design)"
 man = dict(
     version=1,
